@@ -19,7 +19,7 @@ P = T_ptr
 TYPES = [
     ('gint', T_td('gint')), ('guint8', T_td('guint8')), ('gboolean', T_td('gboolean')), ('gsize', T_td('gsize')),
     ('gdouble', T_td('gdouble')), ('int', T_basic('int')), ('FooEnum', T_td('FooEnum')), ('FooAlias', T_td('FooAlias')),
-    ('gint*', P(T_td('gint'))), ('guint8*', P(T_td('guint8'))), ('gsize*', P(T_td('gsize'))), ('gchar*', P(T_td('gchar'))),
+    ('gint*', P(T_td('gint'))), ('gint**', P(P(T_td('gint')))), ('guint8*', P(T_td('guint8'))), ('gsize*', P(T_td('gsize'))), ('gchar*', P(T_td('gchar'))),
     ('const gchar*', P(T_td('gchar', True))), ('gchar**', P(P(T_td('gchar')))), ('gchar***', P(P(P(T_td('gchar'))))),
     ('gpointer', T_td('gpointer')), ('gpointer*', P(T_td('gpointer'))), ('void*', P(T_void())),
     ('FooRec*', P(T_td('FooRec'))), ('FooRec**', P(P(T_td('FooRec')))), ('FooBox*', P(T_td('FooBox'))), ('FooBox**', P(P(T_td('FooBox')))),
@@ -258,6 +258,16 @@ SPECIAL = [
                                             ('n', 'gsize*', None)], ret='void', ret_ann=None),
     dict(name='foo_f5', cbtype=False, params=[('n', 'gsize*', []), ('x', 'gint', [])], ret='guint8*',
          ret_ann=[('array', [('length', 'n')]), ('transfer', [('full', None)])]),
+    dict(name='foo_f8', cbtype=False, params=[('arr', 'gint**', [('inout', []), ('array', [('length', 'n')]), ('transfer', [('full', None)])]),
+                                            ('n', 'gsize*', [])], ret='void', ret_ann=None),
+    dict(name='foo_f9', cbtype=False, params=[('n', 'gint*', None), ('arr', 'gchar***', [('array', [('length', 'n')]), ('inout', [])])],
+         ret='gboolean', ret_ann=None),
+    dict(name='foo_f10', cbtype=False, params=[('cb', 'FooCb', [('closure', [('d0', None)]), ('scope', [('async', None)])]),
+                                             ('d0', 'gpointer', [])], ret='void', ret_ann=None),
+    dict(name='foo_f11', cbtype=False, params=[('d0', 'gpointer', []), ('cb', 'FooCb', [('closure', [('d0', None)]), ('scope', [('call', None)])])],
+         ret='void', ret_ann=None),
+    dict(name='foo_f12', cbtype=False, params=[('dn', 'GDestroyNotify', []), ('cb', 'FooCb', [('destroy', [('dn', None)])]), ('d', 'gpointer', [])],
+         ret='void', ret_ann=None),
     dict(name='foo_f6', cbtype=False, params=[('cb', 'FooCb', [('scope', [('call', None)]), ('closure', [('ctx', None)])]),
                                             ('ctx', 'gpointer', []), ('user_data', 'gpointer', [])], ret='void', ret_ann=None),
     dict(name='foo_f7', cbtype=False, params=[('cb', 'FooCb', [('scope', [('call', None)])]), ('user_data', 'gpointer', []),
@@ -316,7 +326,7 @@ def run_batch(S, ET, batch, line_base=1000):
     return out, r.log
 
 
-def direct_clauses(ck, c):
+def direct_clauses(ck, c, agrees_with_model=None):
     """clauses of the property judged on the output alone"""
     length_targets = set(dict(a[1]).get('length') for q in list(c['params']) + [(None, None, c['ret_ann'])]
                          for a in (q[2] or []) if a[0] == 'array')
@@ -373,26 +383,51 @@ def direct_clauses(ck, c):
                         ck.failing_input('the length parameter does not follow the direction of its array', case,
                                          detail=dict(array=o, length_param=lp))
         if not c['cbtype'] and tn in ('FooCb', 'GFunc', 'GAsyncReadyCallback') and 'type' not in names:
-            finals = [p[0] for p in c['params'] if p[1] != 'GError**' or not c['throws']]
-            if 'scope' in names and 5 not in c['pwarn'][k] and 'destroy' not in names and o['scope'] != d['scope'][0][0]:
-                ck.failing_input('an explicit (scope %s) on a callback parameter is replaced (emitted scope="%s") by the '
-                                 'callback heuristics of _pass3_callable_callbacks' % (d['scope'][0][0], o['scope']), case, detail=o,
-                                 fid='C01-K2-scope-overridden')
+            finals = [p for p in c['params'] if p[1] != 'GError**' or not c['throws']]
+            fnames = [p[0] for p in finals]
+            later = finals[k + 1:]
+            # what the heuristics of _pass3_callable_callbacks pick for this callback (known findings K1-K3 are
+            # exactly: the emitted value is the heuristic's pick instead of the annotated one)
+            h_destroy = None
+            h_closure = None
+            for q in later:
+                if q[1] in ('FooCb', 'GFunc', 'GAsyncReadyCallback') and not any(a[0] == 'type' for a in (q[2] or [])):
+                    break
+                if q[1] == 'GDestroyNotify':
+                    h_destroy = q[0]
+                elif q[1] == 'gpointer' and q[0].endswith('data') and not any(a[0] in ('type', 'array') for a in (q[2] or [])):
+                    h_closure = q[0]
+            emitted_closure = fnames[o['closure']] if o['closure'] is not None and o['closure'] < len(fnames) else None
+            emitted_destroy = fnames[o['destroy']] if o['destroy'] is not None and o['destroy'] < len(fnames) else None
+            destroy_targets = set(a[1][0][0] for q in c['params'] for a in (q[2] or []) if a[0] == 'destroy' and a[1])
+            if 'scope' in names and 5 not in c['pwarn'][k] and 'destroy' not in names and o['scope'] != d['scope'][0][0] \
+                    and nm not in destroy_targets:      # (destroy NAME) elsewhere documents NAME as notified
+                known = (o['scope'] == 'notified' and h_destroy is not None) or (o['scope'] == 'async' and tn == 'GAsyncReadyCallback')
+                known = known if agrees_with_model is None else agrees_with_model
+                ck.failing_input('an explicit (scope %s) on a callback parameter is replaced (emitted scope="%s")%s'
+                                 % (d['scope'][0][0], o['scope'], ' by the callback heuristics of _pass3_callable_callbacks' if known else ''),
+                                 case, detail=o, fid='C01-K2-scope-overridden' if known else None)
             if 'closure' in names and 7 not in c['pwarn'][k]:
                 want = d['closure'][0][0]
-                if o['closure'] is None or o['closure'] >= len(finals) or finals[o['closure']] != want:
-                    ck.failing_input('an explicit valid (closure %s) is replaced by the *data heuristic of '
-                                     '_pass3_callable_callbacks' % want, case, detail=o, fid='C01-K1-closure-overridden')
+                if emitted_closure != want:
+                    known = emitted_closure is not None and emitted_closure == h_closure
+                    known = known if agrees_with_model is None else (agrees_with_model and emitted_closure is not None)
+                    ck.failing_input('an explicit valid (closure %s) is not what the GIR says (closure names %r)%s'
+                                     % (want, emitted_closure, ': replaced by the *data heuristic of _pass3_callable_callbacks' if known else ''),
+                                     case, detail=o, fid='C01-K1-closure-overridden' if known else None)
             if 'closure' in names and 7 in c['pwarn'][k]:
                 want = d['closure'][0][0]
-                if o['closure'] is not None and o['closure'] < len(finals) and finals[o['closure']] == want:
+                if emitted_closure == want:
                     ck.failing_input('a (closure %s) reported as invalid (target is not a gpointer) is emitted all the same' % want,
                                      case, detail=o, fid='C01-K4-invalid-closure-kept')
             if 'destroy' in names and 6 not in c['pwarn'][k]:
                 want = d['destroy'][0][0]
-                if o['destroy'] is None or o['destroy'] >= len(finals) or finals[o['destroy']] != want:
-                    ck.failing_input('an explicit (destroy %s) is replaced by the GDestroyNotify heuristic of '
-                                     '_pass3_callable_callbacks' % want, case, detail=o, fid='C01-K3-destroy-overridden')
+                if emitted_destroy != want:
+                    known = emitted_destroy is not None and emitted_destroy == h_destroy
+                    known = known if agrees_with_model is None else (agrees_with_model and emitted_destroy is not None)
+                    ck.failing_input('an explicit (destroy %s) is not what the GIR says (destroy names %r)%s'
+                                     % (want, emitted_destroy, ': replaced by the GDestroyNotify heuristic of _pass3_callable_callbacks' if known else ''),
+                                     case, detail=o, fid='C01-K3-destroy-overridden' if known else None)
         if c['cbtype'] and 'closure' in names and d['closure'] == [] and 7 in c['pwarn'][k] and o['closure'] == k and 'type' not in names:
             ck.failing_input('a (closure) reported as invalid on a callback-type parameter is emitted all the same', case, detail=o,
                              fid='C01-K4-invalid-closure-kept')
@@ -408,6 +443,40 @@ def direct_clauses(ck, c):
         for key, val in (d.get('attributes') or []):
             if (key, val) not in o['attrs']:
                 ck.failing_input('a free-form attribute is not emitted', case, detail=o)
+
+
+SCALARS = ('gint', 'guint8', 'gboolean', 'gsize', 'gdouble', 'int', 'FooAlias')   # enums by value count as valid sites in the scanner
+
+
+def scalar_clauses(ck, c):
+    """nullable / transfer / optional on plain scalars (in-parameters and return values) are invalid: reported and inert"""
+    explicit_closure_targets = set(a[1][0][0] for q in c['params'] for a in (q[2] or []) if a[0] == 'closure' and a[1])
+    length_targets = set(dict(a[1]).get('length') for q in list(c['params']) + [(None, None, c['ret_ann'])]
+                         for a in (q[2] or []) if a[0] == 'array')
+    slots = [(k, nm, tn, anns, c['pobs'][k], c['pwarn'][k]) for k, (nm, tn, anns) in enumerate(c['params']) if k < len(c['pobs'])]
+    slots.append(('ret', None, c['ret'], c['ret_ann'], c['robs'], c['rwarn']))
+    for k, nm, tn, anns, o, warn in slots:
+        if anns is None or tn not in SCALARS:
+            continue
+        names = [a[0] for a in anns]
+        if any(n in names for n in ('type', 'array', 'element-type', 'out', 'inout')) or nm in length_targets:
+            continue
+        case = dict(callable=c['name'], cbtype=c['cbtype'], params=c['params'], ret=c['ret'], ret_ann=c['ret_ann'], slot=nm or 'return value')
+        if 'nullable' in names and nm not in explicit_closure_targets and not (c['cbtype'] and 'closure' in names):
+            if 2 not in warn:
+                ck.failing_input('(nullable) on a non-pointer %s is not reported' % tn, case, detail=o)
+            if o['nullable']:
+                ck.failing_input('(nullable) on a non-pointer %s is emitted' % tn, case, detail=o)
+        if 'transfer' in names and dict(anns)['transfer'][0][0] in ('full', 'none'):
+            if 1 not in warn:
+                ck.failing_input('(transfer) on a plain %s is not reported' % tn, case, detail=o)
+            if o['transfer'] != 'none':
+                ck.failing_input('(transfer) on a plain %s changed transfer-ownership to %s' % (tn, o['transfer']), case, detail=o)
+        if 'optional' in names and k != 'ret':
+            if 3 not in warn:
+                ck.failing_input('(optional) on an in-parameter is not reported', case, detail=o)
+            if o['optional']:
+                ck.failing_input('(optional) on an in-parameter is emitted', case, detail=o)
 
 
 def main(tier, seed):
@@ -445,7 +514,6 @@ def main(tier, seed):
                 kinds[a[0]] = kinds.get(a[0], 0) + 1
         ck.count_case(dict(name=c['name'], params=c['params'], ret=c['ret'], ret_ann=c['ret_ann']), nontrivial=nann > 0,
                       kind='annotations:%d' % min(nann, 6))
-        direct_clauses(ck, c)
     ck.extra['annotation_counts'] = kinds
     ck.extra['warning_counts'] = {str(k): sum(1 for c in cases for ws in c['pwarn'] + [c['rwarn']] if k in ws) for k, _ in WARN_PATTERNS}
     if ck.models_ok:
@@ -469,6 +537,12 @@ def main(tier, seed):
                 nums = [int(x) for x in m.group(1).replace(' ', '').split(';') if x]
                 bad.append(nums)
         ck.extra['traces_validated_against_impl'] = len(items)
+        badset = set(b[0] for b in bad)
+        # the recorded findings K1-K3 are behaviours of the faithful model (Props/C01.v *_refuted); an override that the
+        # model does not reproduce is something else and is reported
+        for i, c in enumerate(cases):
+            direct_clauses(ck, c, agrees_with_model=(i not in badset))
+            scalar_clauses(ck, c)
         if bad:
             c = cases[bad[0][0]]
             if os.environ.get('VERIF_DEBUG'):
@@ -482,7 +556,11 @@ def main(tier, seed):
                           % (len(bad), bad[0][1:]),
                           dict(callable=c['name'], cbtype=c['cbtype'], params=c['params'], ret=c['ret'], ret_ann=c['ret_ann'],
                                observed_params=c['pobs'], observed_return=c['robs'], warnings=c['pwarn'], ret_warnings=c['rwarn']))
-    return ck.finish(rule='functions and callback types with 1-6 parameters over 43 C types (scalars, pointers of depth 1-3, records, boxed, '
+    if not ck.models_ok:
+        for c in cases:
+            direct_clauses(ck, c)
+            scalar_clauses(ck, c)
+    return ck.finish(rule='functions and callback types with 1-6 parameters over 44 C types (scalars, pointers of depth 1-3, records, boxed, '
                           'objects, enums, aliases, callbacks, GLib containers, unknown types), each with a mostly-valid set of '
                           'annotations (direction, transfer, nullable/optional/allow-none/not, skip, array options, element-type, type, '
                           'scope/closure/destroy, attributes) plus a 25% stream of ill-fitting ones; through the real comment parser, '
